@@ -16,7 +16,7 @@ import (
 )
 
 var instrPkgs = []string{
-	"tars", "tars/transport", "tars/util/gpool", "tars/util/rtimer", "tars/util/rogger",
+	"tars", "tars/protocol", "tars/transport", "tars/util/gpool", "tars/util/rtimer", "tars/util/rogger",
 	"tars/util/grace", "tars/util/tools/ip.go",
 	"tars/selector", "tars/selector/roundrobin", "tars/selector/random", "tars/selector/modhash", "tars/selector/consistenthash",
 }
